@@ -155,3 +155,8 @@ func (c *LocalRunner) Run() error { return c.Sim.OnRun(nil) }
 type OrdMix struct{ OrdH *Handle }
 
 func (o OrdMix) Order() int { return o.OrdH.Ord }
+
+// LocalPrimary makes a function-local type a Primary component.
+type LocalPrimary struct{ LocalBase }
+
+func (c *LocalPrimary) Primary() {}
